@@ -77,6 +77,9 @@ func checkC06(tier, replay string) int {
 	pro := []int{1}
 	runLabelSpace(ctx, 1, padsP, []int{1, 2, 7}, st, &lens)
 	runLabelSpace(ctx, 2, padsP, []int{1, 3}, st, &lens)
+	// distances and label counts beyond every 16-bit quantity: one slot, 65534..66000 and 140000 filler instructions (with
+	// jump-pair filler that is more than 65535 labels)
+	runLabelSpace(ctx, 1, []int{65534, 65535, 65536, 66000, 140000}, []int{1}, st, &lens)
 	if tier == "quick" {
 		runLabelSpace(ctx, 3, padsP2, pro, st, &lens)
 	} else {
@@ -109,7 +112,7 @@ func checkC06(tier, replay string) int {
 	ctx.Cov["policy_level_distinct_programs"] = nprogs
 	ctx.Cov["evaluations"] = st.inputs + ctx.Counter("events")
 	ctx.Cov["distinct_nontrivial"] = st.withRetCopy + st.withLongJa
-	ctx.Cov["rule"] = "states = complete builder-call sequences (label programs) of the grammar slot/pad/tail of DESIGN C06 (k far-capable two-way or one-way JSET jumps, targets = later jumps, returns or a load, pads from the distance alphabet around 255/256/512, filler of loads or of short jumps, shared or separate labels) plus policy-level long programs; transitions = builder calls applied to the real Program; every state is assembled by the real Program.Assemble and executed on all 2^(k+1) inputs against the abstract label machine (traces_validated_against_impl); distinct_nontrivial = label programs in which at least one bridge (early-return copy or long ja) was inserted"
+	ctx.Cov["rule"] = "states = complete builder-call sequences (label programs) of the grammar slot/pad/tail of DESIGN C06 (k far-capable two-way or one-way JSET jumps, targets = later jumps, returns or a load, pads from the distance alphabet around 255/256/512 and, for one slot, 65534..66000 and 140000 (beyond every 16-bit index and label count), filler of loads or of short jumps, shared or separate labels) plus policy-level long programs; transitions = builder calls applied to the real Program; every state is assembled by the real Program.Assemble and executed on all 2^(k+1) inputs against the abstract label machine (traces_validated_against_impl); distinct_nontrivial = label programs in which at least one bridge (early-return copy or long ja) was inserted"
 	ctx.Assumptions = []string{"abstract label machine (labelm.RunAbstract) is the meaning of a label program", "backward jumps, unset labels and two-way jumps whose targets coincide are outside the property's domain and not generated"}
 	return ctx.Finish()
 }
